@@ -6,7 +6,7 @@ STEP_B = 'arbitrary log of fixed length L=n (entries symbolic or ancient), perio
 STEP_A = '(A) <= n-1 pre-state entries inside each window of the admission, (B) nothing inside the longest window pruned, admission logged at its time'
 SPEC = {
     'id': 'C09',
-    'outside': 'sub-second clock granularity; n > 3 per limit; more than 2 limits; what the server observes (send latency); several tasks sharing the limiter (the endpoint write lock serialises them: C12)',
+    'outside': 'rate-limit passes of http::post / new_nonce (CBMC internal error on the post harness, see C08), sub-second clock granularity; n > 3 per limit; more than 2 limits; what the server observes (send latency); several tasks sharing the limiter (the endpoint write lock serialises them: C12)',
     'assumptions': ENDPOINT_ASSUMPTIONS + ['induction argument of harness/endpoint.rs::step links the one-step claims to whole histories'],
     'units': [
         {
@@ -30,6 +30,15 @@ SPEC = {
             'harness_files': {EP: H},
             'harnesses': [
                 {'name': 'c09_new_sorted', 'file': EP, 'timeout': 1500, 'bounds': '3 limits, periods any u64 seconds', 'asserts': 'RateLimit::new sorts by decreasing period and keeps all pairs'},
+            ],
+        },
+        {
+            'name': 'http_get', 'shims': ['reqwest'], 'edits': HTTP_EDITS, 'assumptions': HTTP_ASSUMPTIONS,
+            'harness_files': {HTTPF: 'harness/http.rs'},
+            'harnesses': [
+                {'name': 'c09_get_limited_and_nonce_kept', 'file': HTTPF, 'timeout': 1800, 'unwindset': {'is_nonce|all::<|Bytes': 3, 'memcmp': 3, 'simd_bitmask': 17},
+                 'bounds': 'one http::get call, answer chosen by the solver (transport error | 2xx | non-2xx, nonce absent/valid/malformed)',
+                 'asserts': 'exactly one pass through http::rate_limit before the request is sent; nonce kept iff valid; malformed nonce and non-2xx rejected'},
             ],
         },
     ],
